@@ -1,19 +1,68 @@
 /-
 Property C18 — parameter substitution rewrites exactly the marked places.
-(Interim file: the unbounded theorems are in preparation, see /verif/wip/C18_full.lean.)
+
+ONLY property theorems live here (helper lemmas: InToto/Proofs/Subst.lean).
+Model: InToto/Model/Subst.lean.  Spec: InToto/Spec/Subst.lean.
 -/
-import InToto.Spec.Subst
+import InToto.Proofs.Subst
 
 namespace InToto.C18
-open InToto InToto.Schema InToto.Subst InToto.SubstSpec
+open InToto InToto.Schema InToto.Subst InToto.SubstSpec InToto.SubstProofs
+
+/-- C18: the replacer meets the declarative single-pass specification ... -/
+theorem replace_meets_spec (P : List (Str × Str)) (hP : GoodParams P) (s : Str) :
+    SubstRel P s (replace (pairsOf P) s) := replace_spec P hP s
+
+/-- ... which determines the result uniquely. -/
+theorem spec_functional (P : List (Str × Str)) (hP : GoodParams P) (s o₁ o₂ : Str)
+    (h1 : SubstRel P s o₁) (h2 : SubstRel P s o₂) : o₁ = o₂ := substRel_functional P hP s o₁ o₂ h1 h2
+
+/-- C18: the result does not depend on the order in which parameters are supplied. -/
+theorem order_free (layout : TVal) (P Q : List (Str × Str)) (h : P.Perm Q)
+    (hn : (P.map Prod.fst).Nodup) : substitute layout P = substitute layout Q :=
+  substitute_perm layout P Q h hn
+
+/-- C18: a known marker is replaced by exactly its value and the pass continues behind it
+    (values are never re-substituted). -/
+theorem marker_replaced_once (P : List (Str × Str)) (hP : GoodParams P) (name val rest : Str)
+    (hm : (name, val) ∈ P) :
+    replace (pairsOf P) (marker name ++ rest) = val ++ replace (pairsOf P) rest :=
+  replace_marker P hP name val rest hm
+
+/-- C18: text without a known marker (unknown `{X}`, plain text) stays as it was. -/
+theorem other_text_unchanged (P : List (Str × Str)) (hP : GoodParams P) (s : Str)
+    (h : ∀ pre suf, s = pre ++ suf → ∀ p ∈ P, (marker p.1).isPrefixOf suf = false) :
+    replace (pairsOf P) s = s := replace_no_marker P hP s h
+
+/-- C18: in a step exactly expected-materials, expected-products and expected-command change. -/
+theorem step_other_fields (pairs : List (Str × Str)) (st : TVal) (f : Str)
+    (h1 : f ≠ lit% "expected_materials") (h2 : f ≠ lit% "expected_products")
+    (h3 : f ≠ lit% "expected_command") : fget (substStep pairs st) f = fget st f :=
+  substStep_other pairs st f h1 h2 h3
+
+/-- C18: in an inspection exactly expected-materials, expected-products and run change. -/
+theorem inspection_other_fields (pairs : List (Str × Str)) (i : TVal) (f : Str)
+    (h1 : f ≠ lit% "expected_materials") (h2 : f ≠ lit% "expected_products")
+    (h3 : f ≠ lit% "run") : fget (substInspection pairs i) f = fget i f :=
+  substInspection_other pairs i f h1 h2 h3
+
+/-- C18: every other layout field (keys, CAs, expiry, readme, type) is returned as it was. -/
+theorem layout_other_fields (layout r : TVal) (params : List (Str × Str)) (f : Str)
+    (h : substitute layout params = .ok r) (h1 : f ≠ lit% "steps") (h2 : f ≠ lit% "inspect") :
+    fget r f = fget layout f := substitute_other layout r params f h h1 h2
+
+/-- C18: with no parameters the layout is returned unchanged. -/
+theorem no_parameters (layout : TVal) : substitute layout [] = .ok layout := substitute_empty layout
+
+/-- C18: a parameter name with anything but letters, digits, `_`, `-` is rejected. -/
+theorem invalid_name_rejected (layout : TVal) (params : List (Str × Str)) (p : Str × Str)
+    (hp : p ∈ params) (hbad : validName p.1 = false) : (substitute layout params).isOk = false :=
+  substitute_invalid layout params p hp hbad
 
 /-- examples: adjacent and nested-looking markers, value containing a marker, unknown name -/
 theorem examples :
     replace (pairsOf [(lit% "A", lit% "{B}"), (lit% "B", lit% "x")]) (lit% "{A}{B}{{A}}{C}{A") = lit% "{B}x{{B}}{C}{A"
     ∧ validName (lit% "a b") = false ∧ validName (lit% "a\n") = false ∧ validName (lit% "X_1-y") = true := by
   decide
-
-/-- C18: with no parameters the layout is returned unchanged. -/
-theorem no_parameters (layout : TVal) : substitute layout [] = .ok layout := rfl
 
 end InToto.C18
